@@ -257,10 +257,13 @@ func SweepLengths(tier string, long bool) []int {
 	// 2^14: where element counts and byte lengths start to need a third varint byte
 	ls = append(ls, 16383, 16384, 16385)
 	if long {
-		ls = append(ls, 2047, 2048, 2049)
+		// byte lengths: every bit of a three-byte length varint both set and clear
+		ls = append(ls, 2047, 2048, 2049, 24576, 32767, 32768, 32769, 40960, 49152, 65535, 65536, 65537)
 		if tier == "thorough" {
-			ls = append(ls, 65535, 65536, 1<<21-1, 1<<21)
+			ls = append(ls, 98304, 131072, 1<<21-1, 1<<21, 1<<21+1)
 		}
+	} else if tier == "thorough" {
+		ls = append(ls, 32768, 49152, 65535, 65536, 65537)
 	}
 	return ls
 }
@@ -350,6 +353,31 @@ func sizeSweep(tier string, bigMaps bool) []Item {
 			continue
 		}
 		out = append(out, Item{T: top, Base: sh.t, Opt: sh.opt, Pos: "sweep", Vals: vals})
+	}
+	return out
+}
+
+// InternHistory is the history dimension of interned fields: one decode pushes n DISTINCT values
+// through a single interned field (a slice of n structs), for n around every power of two up to
+// 2^13 (thorough: 2^15; the interned-field check C19 goes beyond 2^14 in its quick tier). The intern table of that field grows by one entry per new value, so n is
+// also the table size the last element is decoded against. One item per n (own worker each: the
+// library copies its table for every new value, which makes a decode quadratic in n).
+func InternHistory(tier string) []Item {
+	maxK := 13
+	if tier == "thorough" {
+		maxK = 15
+	}
+	var out []Item
+	for k := 8; k <= maxK; k++ {
+		for _, n := range []int{1<<k - 1, 1 << k, 1<<k + 1} {
+			elem := Struct(Fld(1, Leaf(KInt)), FldO(2, "intern", Leaf(KString)), FldO(3, "intern", Leaf(KNullString)))
+			top := Struct(Fld(1, Slice(elem)), F{Name: "Z", Index: 9, T: Leaf(KInt)})
+			x := V{E: make([]V, n)}
+			for i := range x.E {
+				x.E[i] = V{E: []V{{U: uint64(i)}, {S: "v" + itoa(i)}, {S: "n" + itoa(i/2)}}}
+			}
+			out = append(out, Item{T: top, Base: elem, Opt: "intern", Pos: "intern-history", Vals: []V{{E: []V{x, {U: 9}}}}})
+		}
 	}
 	return out
 }
